@@ -145,7 +145,9 @@ def p_trace(pot, phase, fe, rtol, K=10.0):
         "hop"          a row lies outside the existence interval (beyond the 1e-6 relative
                        slack documented in DESIGN C11) or nearer to the other branch
         "off-minimum"  same branch, but some row's V(phi_k,T_k) - V_exact(T_k) exceeds the
-                       value-level tolerance, or the stored V_k is not V(phi_k,T_k)
+                       value-level tolerance
+    A stored V_k that is not V(phi_k,T_k) (rounding: 1e-12) does not change the status; it is
+    returned under "stored_V_mismatch" and nu is then taken from V(phi_k,T_k).
     nu = max |V_k - V_exact(T_k)| (the data noise entering the spline), rows = table size.
     """
     Tk = np.asarray(fe._interpolationPoints, dtype=float)
@@ -180,9 +182,16 @@ def p_trace(pot, phase, fe, rtol, K=10.0):
     out["nu"] = float(np.max(np.abs(vals[:, -1] - Vex)))
     out["max_excess_rel"] = float(np.max(excess))
     if np.max(stored) > 1e-12:
-        out.update(status="off-minimum", why=f"stored V_k differs from V(phi_k,T_k) by "
-                   f"{np.max(stored):.2e} relative")
-    elif np.max(np.abs(excess)) > K * rtol + 64 * EPS:
+        # The rows sit where they should, but the tabulated free energy is not the potential
+        # at the tabulated point.  That is not an inadmissible *input* of C10: the reported
+        # pressure is minus this column, so "p = -V at the minimum" is C10's own statement
+        # and stays judged.  The data noise entering the tolerance must then not be taken
+        # from the (wrong) stored column -- it would excuse itself -- but from the rows.
+        k = int(np.argmax(stored))
+        out["stored_V_mismatch"] = {"rel": float(stored[k]), "T": float(Tk[k]), "row": k,
+                                    "stored": float(vals[k, -1]), "V_at_row": float(Vrow[k])}
+        out["nu"] = float(np.max(np.abs(Vrow - Vex)))
+    if np.max(np.abs(excess)) > K * rtol + 64 * EPS:
         k = int(np.argmax(np.abs(excess)))
         out.update(status="off-minimum", why=f"row T={Tk[k]:.9g}: free-energy excess "
                    f"{excess[k]:.2e}|V| > {K:g}*rTol={K * rtol:.1e} (|dphi|={d_own[k]:.2e})")
